@@ -145,3 +145,19 @@ pub enum TlsConfigError {
         source: rustls::Error,
     },
 }
+
+/// Crate-internal access to the certificate verifiers for `crate::verif_hooks::tls`.
+#[cfg(feature = "verif-hooks")]
+pub(crate) mod verif_access {
+    use std::sync::Arc;
+
+    /// The verifier installed by [`super::TlsConfig::new`] for outgoing connections.
+    pub(crate) fn server_verifier() -> Arc<dyn rustls::client::danger::ServerCertVerifier> {
+        Arc::new(super::verifier::ServerCertificateVerifier)
+    }
+
+    /// The verifier installed by [`super::TlsConfig::new`] for incoming connections.
+    pub(crate) fn client_verifier() -> Arc<dyn rustls::server::danger::ClientCertVerifier> {
+        Arc::new(super::verifier::ClientCertificateVerifier)
+    }
+}
